@@ -48,6 +48,7 @@ def customDecode (n : String) : Option (Val → Out) :=
   | "Options" => some decode_Options
   | "MappingWithEquals" => some decode_MappingWithEquals
   | "HostsList" => some decode_HostsList
+  | "UlimitsConfig" => some decodeDM_Ulimits
   | "NanoCPUs" => some fun t => match t with          -- a number stays the (opaque) number; strings go through ParseFloat
     | .int i => .ok (.int i)
     | .float r => .ok (.float r)
